@@ -169,6 +169,9 @@ class C18(PropertyCheck):
             "the statistics stored from the whole pool, each through the functional (positional, keywords), the "
             "constructor, buffers assigned one at a time and the storing module with one buffer set to None; "
             "the accumulating module optionally starts with preset statistics that store must overwrite; "
+            "mvn0: a normalised dimension of extent 0 (ranks 1-3, 1-3 calls, 0..n frames): count = frames, empty "
+            "sum / sumsq, store raises only below the minimum count and otherwise writes empty statistics, forward "
+            "keeps the shape, the constructor rejects empty statistics; "
             "mvnseq: random sequences of 1-10 accumulate / store(delete_stats, bessel) calls on one module incl. "
             "stores that must raise (nothing pending, zero / one frame) followed by further calls, buffers and "
             "statistics observed after every call; cli: the directory command with --num-workers 0, with and "
@@ -177,7 +180,9 @@ class C18(PropertyCheck):
             "styles), --bessel, default --dim/prefix/suffix left out, files of different "
             "rank, stray files, an empty directory; deltas: orders 0-3 x widths 1-3 x 4 pad modes, every legal "
             "(dim, time_dim, concatenate) on rank 2-4 inputs incl. negative aliases, widths 4-10 / orders 4-5, "
-            "fractional pad value, non-contiguous inputs, an axis of extent 0, the all-defaults call, "
+            "fractional pad value, non-contiguous inputs, an axis of extent 0 (legal padding: empty result; a "
+            "padding the mode forbids for the T frames: RuntimeError although there is no row; time axis of "
+            "extent 0: RuntimeError in every mode), the all-defaults call, "
             "functional and module (also on the malformed stream); returns: gamma in {0, +-1/2, 1/4, +-1, 2} "
             "(also as python int) x T <= 8 x both layouts exact, non-contiguous rewards, empty batch, rewards "
             "that are not 2-D (RuntimeError), real gammas within tolerance, long horizons oracle-only. "
@@ -203,6 +208,7 @@ class C18(PropertyCheck):
         big = tier != "quick"
         yield from self.gen_return(rng, big)
         yield from self.gen_mvn(rng, big)
+        yield from self.gen_mvn0(rng, big)
         yield from self.gen_mvnseq(rng, big)
         yield from self.gen_cli(rng, big)
         yield from self.gen_deltas(rng, big)
@@ -340,6 +346,33 @@ class C18(PropertyCheck):
                    "tensors": [{"shape": [0, 2], "data": []}, {"shape": [2, 2], "data": [1, 2, 5, 4]}],
                    "history": [[0], [1]]}
 
+    # ---------------------------------------------------------------- mvn0
+    def gen_mvn0(self, rng, big):
+        """(audit) A normalised dimension of extent 0: no coefficient, but the frames are still counted
+        (count += x.size(1)), sum / sumsq stay empty, store raises only below the documented minimum count
+        and otherwise writes EMPTY statistics; forward returns the (empty) input shape.  The first model
+        counted the frames on the coefficient columns (0 here) and let store raise."""
+        for k in range(24 if big else 10):
+            rank = rng.choice([1, 2, 2, 3])
+            dim = rng.randrange(-rank, rank)
+            d = dim % rank
+            others = [a for a in range(rank) if a != d]
+            cat = rng.choice(others) if others else None
+            base = [rng.choice([1, 2, 3]) for _ in range(rank)]
+            base[d] = 0
+            shapes = []
+            for i in range(rng.randrange(1, 4)):
+                sh = list(base)
+                if cat is not None:
+                    sh[cat] = rng.choice([0, 1, 1, 2, 3]) if k % 3 else 1
+                shapes.append(sh)
+            if k % 3 == 0:
+                shapes = shapes[:1]         # one call: one frame when every other extent is 1
+                if k % 2 == 0:
+                    shapes[0] = [0 if a == d else 1 for a in range(rank)]
+            yield {"kind": "mvn0", "dim": dim, "cat_axis": cat, "shapes": shapes, "bessel": bool(k & 1),
+                   "dtype": rng.choice(["float32", "float64"])}
+
     # ---------------------------------------------------------------- mvnseq
     def gen_mvnseq(self, rng, big):
         """The module as a state machine: any sequence of accumulate / store(delete_stats, bessel) calls,
@@ -474,6 +507,29 @@ class C18(PropertyCheck):
                 o, w = rng.choice([(1, 1), (2, 2), (0, 1)])
                 shape[td] = max(shape[td], o * w + 1)
                 yield self.delta_case(rng, shape, dm, td, cat, o, w, rng.choice(PAD_MODES))
+        # (h) (audit) pad / conv1d check the SHAPE (rows, 1, T), not the content: an input WITHOUT any entry
+        # (another axis has extent 0) and a padding the mode forbids for its T frames -> RuntimeError; the
+        # same empty input with a legal padding -> an empty result; a time axis of extent 0 -> RuntimeError
+        # in every mode (the first model returned an empty tensor in both error situations)
+        for mode in PAD_MODES:
+            for D in (2, 3):
+                for rep in range(2 if big else 1):
+                    td, dm, cat = rng.choice(list(self.layouts(D, negatives=False)))
+                    o, w = rng.choice([(1, 2), (2, 1), (2, 2), (1, 3)])
+                    base = self.delta_case(rng, [4 * 9] * D, dm, td, cat, o, w, mode)
+                    shape = self.rand_shape(rng, D)
+                    shape[rng.choice([a for a in range(D) if a != td])] = 0
+                    for T in sorted({1, o * w - 1, o * w, o * w + 1}):
+                        if T >= 1:
+                            sh = list(shape)
+                            sh[td] = T
+                            yield dict(base, shape=sh, data=[])
+                    # no frame at all: with and without entries elsewhere being impossible, both are empty
+                    sh = self.rand_shape(rng, D)
+                    sh[td] = 0
+                    yield dict(base, shape=sh, data=[])
+                    yield dict(base, shape=sh, data=[], order=0)
+            yield dict(self.delta_case(rng, [5], 0, 0, True, 1, 1, mode), shape=[0], data=[])
         # (d) malformed: illegal pads, dims out of range, width 0, negative order
         for D in (2, 3):
             for rep in range(6 if big else 3):
@@ -718,6 +774,25 @@ class C18(PropertyCheck):
                           "dtype_ok": own.dtype == pooled.dtype and own.shape == pooled.shape,
                           "functional_equal": bool(torch.equal(
                               own, mean_var_norm(pooled, **({} if pdim == -1 else {"dim": pdim}), **ekw)))}
+        # (audit) what the Lean model does not carry: the normalised dimension is a Nat there (the driver
+        # normalises it), and statistics of the wrong length are silently truncated by the list model.  The
+        # code must reject both: IndexError for a dimension outside [-rank, rank), RuntimeError for a
+        # statistics vector whose length is not x.size(dim).
+        rej = {}
+        R, Xp = pooled.dim(), pooled.size(pdim)
+        for name, f in (
+                ("functional dim=rank", lambda: mean_var_norm(pooled, R)),
+                ("functional dim=-rank-1", lambda: mean_var_norm(pooled, -R - 1)),
+                ("accumulate dim=rank", lambda: self.new_mvn(R).accumulate(pooled)),
+                ("accumulate dim=-rank-1", lambda: self.new_mvn(-R - 1).accumulate(pooled)),
+                ("mean one too long", lambda: mean_var_norm(pooled, pdim, torch.zeros(Xp + 1), None)),
+                ("std one too long", lambda: mean_var_norm(pooled, pdim, None, torch.ones(Xp + 1)))):
+            try:
+                f()
+                rej[name] = "returned"
+            except Exception as e:
+                rej[name] = type(e).__name__
+        obs["rejects"] = rej
         try:
             mvn.store(delete_stats=False, bessel=case["bessel"])
         except RuntimeError as e:
@@ -763,6 +838,104 @@ class C18(PropertyCheck):
         obs["restart"] = self.acc_obs(mvn)
         obs["mutated"] = mutated
         return obs
+
+    def impl_mvn0(self, case):
+        import torch
+        from pydrobert.torch.functional import mean_var_norm
+        from pydrobert.torch.modules import MeanVarianceNormalization
+        dt = torch.float32 if case["dtype"] == "float32" else torch.float64
+        ts = [torch.zeros(sh, dtype=dt) for sh in case["shapes"]]
+        mvn = self.new_mvn(case["dim"])
+        for t in ts:
+            mvn.accumulate(t)
+        obs = {"count": frac_str(Fraction(float(mvn.count))), "sum_len": mvn.sum.numel(),
+               "sumsq_len": mvn.sumsq.numel(),
+               "buffers_double": all(b.dtype == torch.float64 for b in (mvn.count, mvn.sum, mvn.sumsq))}
+        x = ts[0]
+        obs["own_shape"] = list(mean_var_norm(x, case["dim"]).shape)
+        try:
+            mvn.store(delete_stats=False, bessel=case["bessel"])
+            obs["store"] = {"mean_len": mvn.mean.numel(), "std_len": mvn.std.numel(),
+                            "ndim": [mvn.mean.dim(), mvn.std.dim()],
+                            "module_shape": list(mvn(x).shape),
+                            "functional_shape": list(mean_var_norm(x, case["dim"], mvn.mean, mvn.std).shape),
+                            "buffers_kept": mvn.count is not None}
+        except RuntimeError as e:
+            obs["store"] = None
+            obs["store_error"] = str(e)[:80]
+        # the constructor documents non-empty statistics: it must keep rejecting empty ones
+        ctor = {}
+        for name, a in (("mean", (torch.zeros(0), None)), ("std", (None, torch.zeros(0)))):
+            try:
+                MeanVarianceNormalization(case["dim"], *a)
+                ctor[name] = "returned"
+            except Exception as e:
+                ctor[name] = type(e).__name__
+        obs["ctor_empty"] = ctor
+        return obs
+
+    def req_mvn0(self, case):
+        from pydrobert.torch import config
+        shapes = case["shapes"]
+        pooled = list(shapes[0])
+        if case["cat_axis"] is not None:
+            pooled[case["cat_axis"]] = sum(sh[case["cat_axis"]] for sh in shapes)
+        return {"op": "c18.mvn", "case": {
+            "dim": case["dim"], "pooled_dim": case["dim"], "bessel": case["bessel"], "eps": frac_str(config.TINY),
+            "mid": None, "chunks": [{"shape": sh, "data": []} for sh in shapes],
+            "pooled": {"shape": pooled, "data": []}, "grids": []}}
+
+    @staticmethod
+    def mvn0_frames(case):
+        n = 0
+        for sh in case["shapes"]:
+            d = case["dim"] % len(sh)
+            n += prod([e for a, e in enumerate(sh) if a != d])
+        return n
+
+    def cmp_mvn0(self, case, impl, model):
+        out = []
+        a = model["acc"]
+        if F(impl["count"]) != F(a["count"]):
+            out.append(f"count impl={impl['count']} model={a['count']}")
+        if impl["sum_len"] != len(a["sum"]) or impl["sumsq_len"] != len(a["sumsq"]):
+            out.append(f"buffer lengths impl=({impl['sum_len']}, {impl['sumsq_len']}) model=({len(a['sum'])}, {len(a['sumsq'])})")
+        if (impl["store"] is None) != (model["store"] is None):
+            out.append(f"store: impl {'raised' if impl['store'] is None else 'stored'}, "
+                       f"model {'raises' if model['store'] is None else 'stores'}")
+        elif impl["store"] is not None and (impl["store"]["mean_len"] != len(model["store"]["mean"])
+                                            or impl["store"]["std_len"] != len(model["store"]["var"])):
+            out.append("stored statistics of different length")
+        return out
+
+    def pred_mvn0(self, case, impl, model):
+        fails = []
+        frames = self.mvn0_frames(case)
+        if F(impl["count"]) != frames:
+            fails.append((f"no coefficient: count {impl['count']} is not the number of frames {frames}", None))
+        if impl["sum_len"] or impl["sumsq_len"] or not impl["buffers_double"]:
+            fails.append(("no coefficient: sum / sumsq are not empty double buffers", None))
+        need = 2 if case["bessel"] else 1
+        if frames < need:
+            if impl["store"] is not None:
+                fails.append((f"store(bessel={case['bessel']}) accepted {frames} frame(s)", None))
+        elif impl["store"] is None:
+            fails.append((f"store(bessel={case['bessel']}) raised with {frames} frames (no coefficient): "
+                          f"{impl.get('store_error')}", None))
+        else:
+            st = impl["store"]
+            if st["mean_len"] or st["std_len"] or st["ndim"] != [1, 1]:
+                fails.append(("no coefficient: stored statistics are not empty vectors", None))
+            if st["module_shape"] != case["shapes"][0] or st["functional_shape"] != case["shapes"][0]:
+                fails.append(("forward with the stored empty statistics changed the shape", None))
+            if not st["buffers_kept"]:
+                fails.append(("store(delete_stats=False) dropped the buffers", None))
+        if impl["own_shape"] != case["shapes"][0]:
+            fails.append(("forward with own statistics changed the shape", None))
+        for name, got in impl["ctor_empty"].items():
+            if got != "ValueError":
+                fails.append((f"constructor with an empty {name}: {got}, expected ValueError", None))
+        return fails
 
     def req_mvn(self, case):
         ts, chunks = self.chunks_of(case)
@@ -1273,6 +1446,10 @@ class C18(PropertyCheck):
             fails.append(("accumulation buffers are not double precision", None))
         if impl.get("mutated"):
             fails.append((f"the caller's tensor was modified in place by {impl['mutated']}", None))
+        for name, got in (impl.get("rejects") or {}).items():
+            want = "IndexError" if "dim=" in name else "RuntimeError"
+            if got != want:
+                fails.append((f"illegal call ({name}): {got}, expected {want}", None))
         a = impl["acc"]
         if F(a["count"]) != frames:
             fails.append((f"count {a['count']} is not the number of frames {frames}", None))
@@ -1509,6 +1686,8 @@ class C18(PropertyCheck):
             return len(case["history"]) >= 2
         if k == "mvnseq":
             return sum(1 for op in case["ops"] if op[0] == "store") >= 1 and len(case["ops"]) >= 3
+        if k == "mvn0":
+            return self.mvn0_frames(case) >= 1
         if k == "cli":
             return len(case["files"]) >= 2
         if k == "deltas":
@@ -1536,6 +1715,11 @@ class C18(PropertyCheck):
             t += [f"mvn.layout={l}" for l in set(case.get("layouts") or ["contig"])]
             if isinstance(impl, dict) and impl.get("store", 1) is None:
                 t.append("mvn.store_raises")
+        elif k == "mvn0":
+            fr = self.mvn0_frames(case)
+            t += [f"mvn0.rank={len(case['shapes'][0])}", f"mvn0.calls={len(case['shapes'])}",
+                  f"mvn0.frames={min(fr, 3)}{'+' if fr > 3 else ''}", f"mvn0.bessel={case['bessel']}",
+                  f"mvn0.stored={isinstance(impl, dict) and impl.get('store') is not None}"]
         elif k == "mvnseq":
             st = [op for op in case["ops"] if op[0] == "store"]
             t += [f"mvnseq.calls={min(len(case['ops']), 8)}", f"mvnseq.stores={min(len(st), 4)}",
@@ -1567,6 +1751,11 @@ class C18(PropertyCheck):
                   "deltas.stream=" + ("exact" if case["width"] == 1 or case["order"] == 0 else "tolerance"),
                   f"deltas.memory={case.get('layout') or 'contig'}", f"deltas.value={case['value']}",
                   f"deltas.all_defaults={not self.delta_nondefault(case)}", f"deltas.empty={prod(case['shape']) == 0}"]
+            if prod(case["shape"]) == 0 and 0 <= case["time_dim"] % D < D:
+                T, p = case["shape"][case["time_dim"] % D], case["order"] * case["width"]
+                legal = {"replicate": p == 0 or T > 0, "constant": True, "reflect": p == 0 or p < T,
+                         "circular": p == 0 or p <= T}.get(case["pad_mode"], True)
+                t.append("deltas.empty_kind=" + ("no_frame" if T == 0 else "legal_pad" if legal else "illegal_pad"))
             if isinstance(impl, dict) and "raised" in impl:
                 t.append("deltas.raised=" + impl["raised"])
         else:
@@ -1640,6 +1829,10 @@ class C18(PropertyCheck):
                     ts = list(case["tensors"])
                     ts[i] = dict(t, data=[max(0, min(1, v)) for v in t["data"]])
                     yield dict(case, tensors=ts)
+        elif k == "mvn0":
+            if len(case["shapes"]) > 1:
+                for i in range(len(case["shapes"])):
+                    yield dict(case, shapes=case["shapes"][:i] + case["shapes"][i + 1:])
         elif k == "mvnseq":
             ops = case["ops"]
             for j in range(len(ops) - 1, -1, -1):
